@@ -18,10 +18,10 @@ var aferoMutating = map[string]bool{
 }
 
 type effects struct {
-	c        *Ctx
-	mutates  map[*ssa.Function]bool // may (transitively) mutate the backend
-	accesses map[*ssa.Function]bool // may (transitively) touch the backend at all
-	direct   map[*ssa.Function][]ssa.Instruction
+	c         *Ctx
+	mutates   map[*ssa.Function]bool // may (transitively) mutate the backend
+	accesses  map[*ssa.Function]bool // may (transitively) touch the backend at all
+	direct    map[*ssa.Function][]ssa.Instruction
 	vfsByName map[string]*ssa.Function
 }
 
